@@ -58,6 +58,14 @@ CLAIMED = {
         "implementation only — partial. Every cut offset of small files and every field boundary ±1 of large ones is read through both readers and three cache states.",
    technique="Lean 4 proof (generic truncation argument over reader programs) + exhaustive cut-offset enumeration on the implementation",
    design="§5 C07"),
+ "C08": dict(
+   text="Theorems (Props/C08.lean) over a nested-array model of the three body classes: the three constructors produce the same body from the same data (backends_agree); torch()/tensorflow() conversion of a consistent NumPy body is the identity "
+        "(convert_eq); the flags of point (f,p,n) are isZero(conf f p n) once per coordinate — missing in ALL dimensions exactly when the confidence is 0 (missing_all_dims_iff_conf_zero); point selection, frame selection and stepping give the same "
+        "body on every backend although NumPy re-derives and unites the mask while torch/tf keep it (getPoints_agree, selectFrames_agree, sliceStep_agree, via 'selection commutes with mask derivation'); the matrix product of zero-filled (NumPy) "
+        "and raw (torch/tf) coordinates has the same visible result (matmul_point_view, no arithmetic law used). Files are read into all three classes (tensorflow in a child process), converted, pushed through random sequences of the shared "
+        "operations and compared pairwise and with the model.",
+   technique="Lean 4 proof (selection/element-wise commutation over nested arrays, parametric scalar) + three-backend differential run",
+   design="§5 C08"),
  "C10": dict(
    text="Theorem (Props/C10.lean) run_refines: for EVERY straight-line program over the modelled API (indexing, slicing, gather, permute/transpose, squeeze, unsqueeze, reshape, split parts, cat, stack, elementwise ops with masked and "
         "scalar operands, pow, square, sqrt, strict sum, tf mean/variance/std, square matmul, fix_nan), every shape, every mask, every scalar type and every interpretation of the arithmetic (no law assumed: holds with NaN/±inf), "
